@@ -524,6 +524,23 @@ func c18Values(img []byte, off int64, w int, size, blk int64) [][]byte {
 		// range but large against what the image holds
 		cands = append(cands, 0x100, 0x400, 0x1000, 0x1fff, 0x2000, 0x2001)
 	}
+	if w == 4 {
+		// single high bits: a product with a sector or entry size wraps to a small number or to zero
+		if hx.Thorough() {
+			for k := uint(8); k < 32; k++ {
+				cands = append(cands, 1<<k)
+			}
+		} else {
+			cands = append(cands, 1<<16, 1<<20, 1<<23, 1<<24, 1<<28)
+		}
+	}
+	if hx.Thorough() && (w == 2 || w == 4) && o >= 16 && o <= 1024 {
+		// a small count, size or offset: every smaller value (and a few larger ones), because the interesting
+		// ones are the boundaries of the structures it describes (an entry's end minus one), not of the field
+		for v := uint64(2); v < o+8; v++ {
+			cands = append(cands, v)
+		}
+	}
 	seen := map[uint64]bool{o: true}
 	var out [][]byte
 	for _, v := range cands {
